@@ -721,15 +721,16 @@ def region_growth_bound(rows, seed, n, m):
     for part, l1, l2 in ((rows[:k], seed[0], seed[1]), (rows[k + 1:], n - seed[0] - 1, m - seed[1] - 1)):
         e1 = sum(1 for i, _ in part if i != -1)
         e2 = sum(1 for _, j in part if j != -1)
-        init = [min(l1 + 1, INIT_SIZE), min(l2 + 1, INIT_SIZE)]
+        final = [min(l1 + 1, INIT_SIZE), min(l2 + 1, INIT_SIZE)]
+        grown = False
         for dim, e in ((0, e1), (1, e2)):
-            size = init[dim]
-            grown = False
-            while size <= e:          # index e must exist
-                size *= 2
+            while final[dim] <= e:          # index e must exist
+                final[dim] *= 2
                 grown = True
-            if grown:
-                need = max(need, size * init[1 - dim])
+        if grown:
+            # the table that holds the end of the region has at least this shape in both dimensions, and it was
+            # created by an extension step, which is where the limit is compared with the new number of cells
+            need = max(need, final[0] * final[1])
     return need
 
 
